@@ -104,7 +104,7 @@ class ValueFactory:
         if t == "int":
             return v["n"]
         if t == "str":
-            return STR_TAGS[v["s"]]
+            return STR_TAGS.get(v["s"], v["s"])
         if t == "bytes":
             return STR_TAGS[v["s"]].encode("utf-8")
         if t == "seq":
@@ -348,10 +348,11 @@ def concretize(p, perm=0, style=None):
                 if ent[0] == "s":
                     n = ent[1]
                     sa = it["sattr"][n - 1]
-                    quote = sa.get("q", '"')
-                    val = sa.get("v", "v%d" % n)
-                    space = sa.get("sp", " ")
-                    eq = sa.get("eq", "=")
+                    lex = sa.get("lex", {})
+                    quote = lex.get("q", '"')
+                    val = lex.get("v", "v%d" % n)
+                    space = lex.get("sp", " ")
+                    eq = lex.get("eq", "=")
                     txt = space + sa["n"] + eq + quote + val + quote
                     c.add(txt)
                     c.piece[("sattr", i, n)] = txt
@@ -477,6 +478,23 @@ def _print_atoms(atoms, c, p, vf, objs=None):
             obj = vf.make(a["v"]) if objs is None else objs(a["v"])
             t = conv(obj)
             segs.append(space + d["n"] + eq + quote + esc_attr(t, quote) + quote)
+        elif k == "sdflt":
+            # 'default': the static value under the statement's spelling of the name
+            it = p["items"][a["i"] - 1]
+            d = it["dattr"][a["n"] - 1]
+            space, _n, eq, quote, val = c.attrfmt[(a["i"], a["st"])]
+            segs.append(space + d["n"] + eq + quote + val + quote)
+        elif k == "battr":
+            it = p["items"][a["i"] - 1]
+            d = it["dattr"][a["n"] - 1]
+            if a["st"]:
+                space, _n, eq, quote, _v = c.attrfmt[(a["i"], a["st"])]
+            else:
+                space, eq, quote = " ", "=", '"'
+            segs.append(space + d["n"] + eq + quote + d["n"] + quote)
+        elif k == "kattr":
+            obj = vf.make(a["v"]) if objs is None else objs(a["v"])
+            segs.append(" " + a["k"] + '="' + esc_attr(conv(obj), '"') + '"')
         elif k == "val":
             t = _val_text(a["v"], vf, objs)
             if t is None:
